@@ -85,7 +85,7 @@ def check_UD_is_UD(op_list:np.ndarray, kind:str='uda', num_round:int=100, num_re
         matB_exp = ((op_list @ state) @ state.conj()).real
         model.set_expectation(matB_exp)
         theta_optim0 = numqi.optimize.minimize(model, theta0='uniform', num_repeat=num_repeat_sgd,
-                        tol=zero_eps/10, early_stop_threshold=zero_eps/10, print_every_round=0, print_freq=0)
+                        tol=zero_eps/10, early_stop_threshold=zero_eps/10, print_every_round=0, print_freq=0, seed=np_rng)
         state1 = model.get_state()
         assert theta_optim0.fun < zero_eps
         if kind=='uda':
